@@ -1,5 +1,7 @@
 import BbRe.Lemmas.SchedLiveExec
 import BbRe.Lemmas.SchedLiveRun
+import BbRe.Lemmas.SchedLiveSyncQ
+import BbRe.Lemmas.SchedLiveDrain
 /-!
 # C05 — tasks only reach matching, undrained workers
 
@@ -176,5 +178,59 @@ theorem undrain_restores (h : Hints) (s s' : State) (now : Nat) (q : ScqId) (p :
     have : (emit (s1.setScq { sq with drains := sq.drains.filter (· ≠ p), undrainGen := sq.undrainGen + 1 }) .opOk).scq? q =
         (s1.setScq { sq with drains := sq.drains.filter (· ≠ p), undrainGen := sq.undrainGen + 1 }).scq? q := rfl
     rw [this, scq?_setScq]; simp [hid, hsq]
+
+/-- **undrain_restores (all waiting workers).**  After every successful `RemoveDrain` segment from a reachable
+state, every worker of that queue that waits for an undrain — with whatever snapshot — is strictly behind the
+queue's new generation, i.e. its captured `undrainWakeup` channel is closed. -/
+theorem undrain_wakes_all (h : Hints) (s s' : State) (hs : Reachable s) (now : Nat) (q : ScqId) (p : Pattern)
+    (hstep : step s (.removeDrain h now q p) = .ok s') (w' : WId) (wk : Worker) (g : Nat)
+    (hwk : s'.worker? q w' = some wk) (hdw : wk.drainWait = some g) :
+    ∃ sq', s'.scq? q = some sq' ∧ g < sq'.undrainGen :=
+  removeDrain_stale hs hstep hwk hdw
+
+/-- non-vacuity: a worker of a drained queue waits with snapshot 0; `RemoveDrain` succeeds and leaves it waiting. -/
+def sDrained : State := run (State.init cfg)
+  [.register 1 [5] 7 [0] 0 0, .addDrain h0 1 qA ⟨some 1, none⟩, .sync h0 2 qA [5] 7 w .idle false]
+example : ∃ s' wk, step sDrained (.removeDrain h0 3 qA ⟨some 1, none⟩) = .ok s' ∧ s'.worker? qA w = some wk ∧
+    wk.drainWait = some 0 := ⟨_, _, rfl, rfl, rfl⟩
+
+/-! ## `Synchronize` for a size class without a queue -/
+
+/-- **size classes of worker-created queues.**  A `Synchronize` for a size-class queue `q` that does not exist
+(after `enter`) while its platform queue does: let `maxQ` be the queue of the platform queue's largest size
+class `maxSc`.  If `maxQ` is not predeclared (`mayBeRemoved`: the platform queue was created by a worker), or
+`q.sc` exceeds `maxSc`, or `q.sc = 0` while `maxSc > 0`, the call is refused with `INVALID_ARGUMENT` and
+nothing else changes — no queue, no worker is created, so no task can ever be routed to a size class outside
+the declared range.  Otherwise the queue is created (removable, undrained) and the call continues from
+`addScq s1 q`.  For an unknown platform queue both are created. -/
+theorem sync_new_size_class (h : Hints) (s s' : State) (now : Nat) (q : ScqId) (comps : List Nat) (pf : Nat)
+    (w' : WId) (rep : Report) (pi : Bool) (hh : syncArrive h s now q comps pf w' rep pi = .ok s') :
+    ∃ s1 x, enter h s now = .ok s1 ∧ syncQueue s1 q comps pf w' = .ok x ∧
+      (s1.scq? q = none →
+        (∀ pq, s1.pq? q.pq = some pq →
+          ∃ maxSc maxQ, (s1.sizes q.pq).getLast? = some maxSc ∧ s1.scq? ⟨q.pq, maxSc⟩ = some maxQ ∧
+            (refusesSizeClass maxQ maxSc q.sc → s' = emit s1 (.syncErr q w' cInvalidArgument)) ∧
+            (¬ refusesSizeClass maxQ maxSc q.sc → x = .inr (addScq s1 q))) ∧
+        (s1.pq? q.pq = none → x = .inr (addPqScq s1 q comps pf))) := by
+  obtain ⟨s1, x, h1, h2, h3⟩ := syncArrive_ok hh
+  refine ⟨s1, x, h1, h2, fun hn => ⟨?_, fun hp => syncQueue_unknown h2 hn hp⟩⟩
+  intro pq hpq
+  obtain ⟨maxSc, maxQ, a, b, c, d⟩ := syncQueue_known h2 hn hpq
+  refine ⟨maxSc, maxQ, a, b, ?_, d⟩
+  intro hr
+  have hx := c hr
+  rcases h3 with rfl | ⟨s2, rfl, _⟩
+  · injection hx with hx
+  · cases hx
+
+/-- non-vacuity: queue 1 is predeclared with size class 0 only, queue 3 with 0 and 4, queue 4 with 4 only,
+queue 9 was created by a worker (size class 2).  Refused: size class 3 of queue 1 (too large), size class 1
+of queue 9 (not predeclared), size class 0 of queue 4; created: size class 2 of queue 3. -/
+def sSizes : State := run (State.init cfg)
+  [.register 1 [5] 7 [0] 0 0, .register 3 [6] 7 [0, 4] 0 0, .register 4 [7] 7 [4] 0 0, .sync h0 1 ⟨9, 2⟩ [8] 7 w .idle false]
+example : (run sSizes [.sync h0 2 ⟨1, 3⟩ [5] 7 ⟨2, 1⟩ .idle false]).events.take 1 = [.syncErr ⟨1, 3⟩ ⟨2, 1⟩ cInvalidArgument] := rfl
+example : (run sSizes [.sync h0 2 ⟨9, 1⟩ [8] 7 ⟨2, 1⟩ .idle false]).events.take 1 = [.syncErr ⟨9, 1⟩ ⟨2, 1⟩ cInvalidArgument] := rfl
+example : (run sSizes [.sync h0 2 ⟨4, 0⟩ [7] 7 ⟨2, 1⟩ .idle false]).events.take 1 = [.syncErr ⟨4, 0⟩ ⟨2, 1⟩ cInvalidArgument] := rfl
+example : ((run sSizes [.sync h0 2 ⟨3, 2⟩ [6] 7 ⟨2, 1⟩ .idle false]).scq? ⟨3, 2⟩).map (·.mayBeRemoved) = some true := by decide
 
 end BbRe.Properties.C05
